@@ -1,2 +1,48 @@
-/-! Driver for C10 (stub: not built yet). -/
-def main : IO Unit := pure ()
+import Drivers.Proto
+import PymocaVerif.Model.Classify
+/-! Driver for C10: `classify` (annotation + category split on the serialised flat class) and
+    `annotate` (prefix lists after `annotate_states`). -/
+open Lean Drivers PymocaVerif.Classify
+
+partial def parseNode (j : Json) : Except String Node := do
+  let k ← getStr j "k"
+  let n ← getStr j "n"
+  let f ← getBool j "f"
+  let cs ← getArr j "c"
+  let kids ← cs.toList.mapM parseNode
+  pure (.mk k n f kids)
+
+def parseSym (j : Json) : Except String Sym := do
+  let name ← getStr j "name"
+  let pf ← (← getArr j "prefixes").toList.mapM (·.getStr?)
+  let ty ← getStr j "type"
+  let order ← getInt j "order"
+  let dims ← (← getArr j "dims").toList.mapM (·.getInt?)
+  pure { name := name, prefixes := pf, type := ty, order := order, dims := dims }
+
+def listsJson (l : Lists) : Json :=
+  Json.mkObj [
+    ("states", jstrs l.states), ("der_states", jstrs l.derStates), ("alg_states", jstrs l.algStates),
+    ("inputs", jstrs l.inputs), ("parameters", jstrs l.parameters), ("constants", jstrs l.constants),
+    ("string_parameters", jstrs l.stringParameters), ("string_constants", jstrs l.stringConstants),
+    ("outputs", jstrs l.outputs)]
+
+def handle (req : Json) : Except String Json := do
+  let op ← getStr req "op"
+  let syms ← (← getArr req "symbols").toList.mapM parseSym
+  let t ← parseNode (← getObj req "tree")
+  match op with
+  | "classify" =>
+    match classify syms t with
+    | .assertionError => pure (Json.mkObj [("ok", true), ("raised", "AssertionError")])
+    | .attributeError => pure (Json.mkObj [("ok", true), ("raised", "AttributeError")])
+    | .ok l => pure (Json.mkObj [("ok", true), ("raised", Json.null), ("lists", listsJson l)])
+  | "annotate" =>
+    match annotate syms t with
+    | none => pure (Json.mkObj [("ok", true), ("raised", "AssertionError")])
+    | some ss =>
+      pure (Json.mkObj [("ok", true), ("raised", Json.null),
+        ("prefixes", Json.mkObj (ss.map fun s => (s.name, jstrs s.prefixes)))])
+  | o => throw s!"unknown-op {o}"
+
+def main : IO Unit := serve handle
